@@ -2104,17 +2104,17 @@ innerloop4:
         vinserti32x4 zmm8, zmm8, xmmword ptr [r9+rdx-4H*10H], 01H
         vinserti32x4 zmm8, zmm8, xmmword ptr [r10+rdx-4H*10H], 02H
         vinserti32x4 zmm8, zmm8, xmmword ptr [r11+rdx-4H*10H], 03H
-        vmovups zmm9, zmmword ptr [r8+rdx-30H]
+        vmovups xmm9, xmmword ptr [r8+rdx-30H]
         vinserti32x4 zmm9, zmm9, xmmword ptr [r9+rdx-3H*10H], 01H
         vinserti32x4 zmm9, zmm9, xmmword ptr [r10+rdx-3H*10H], 02H
         vinserti32x4 zmm9, zmm9, xmmword ptr [r11+rdx-3H*10H], 03H
         vshufps zmm4, zmm8, zmm9, 136
         vshufps zmm5, zmm8, zmm9, 221
-        vmovups zmm8, zmmword ptr [r8+rdx-20H]
+        vmovups xmm8, xmmword ptr [r8+rdx-20H]
         vinserti32x4 zmm8, zmm8, xmmword ptr [r9+rdx-2H*10H], 01H
         vinserti32x4 zmm8, zmm8, xmmword ptr [r10+rdx-2H*10H], 02H
         vinserti32x4 zmm8, zmm8, xmmword ptr [r11+rdx-2H*10H], 03H
-        vmovups zmm9, zmmword ptr [r8+rdx-10H]
+        vmovups xmm9, xmmword ptr [r8+rdx-10H]
         vinserti32x4 zmm9, zmm9, xmmword ptr [r9+rdx-1H*10H], 01H
         vinserti32x4 zmm9, zmm9, xmmword ptr [r10+rdx-1H*10H], 02H
         vinserti32x4 zmm9, zmm9, xmmword ptr [r11+rdx-1H*10H], 03H
@@ -2233,7 +2233,7 @@ innerloop2:
         vshufps ymm5, ymm8, ymm9, 221
         vmovups ymm8, ymmword ptr [r8+rdx-20H]
         vinsertf128 ymm8, ymm8, xmmword ptr [r9+rdx-20H], 01H
-        vmovups ymm9, ymmword ptr [r8+rdx-10H]
+        vmovups xmm9, xmmword ptr [r8+rdx-10H]
         vinsertf128 ymm9, ymm9, xmmword ptr [r9+rdx-10H], 01H
         vshufps ymm6, ymm8, ymm9, 136
         vshufps ymm7, ymm8, ymm9, 221
